@@ -191,6 +191,7 @@ class Env:
         self.run_done = False
         self.driver = None
         self.in_seen_eof = False
+        self.never_ended = False
 
     # ---- helpers (call with cv held) -------------------------------------
     def _worker(self, who):
@@ -369,6 +370,17 @@ class Env:
                     break
             self.drained = True
             self.cv.notify_all()
+            if self.exited is None and not self.abort:
+                # nothing in the script ever ends the process: the run can only end through the
+                # dead-worker escape (<= 1 s join timeout); otherwise stop the scenario here
+                deadline = time.time() + 2.5
+                while not (self.run_done or self.abort) and time.time() < deadline:
+                    self.cv.wait(0.02)
+                if not (self.run_done or self.abort):
+                    self.hang = self.hang or "the process never ends in this script and run() keeps waiting"
+                    self.never_ended = True
+                    self.abort = True
+                    self.cv.notify_all()
 
 
 def make_runner_class():
@@ -598,3 +610,108 @@ def run_scripted(case):
 def cps(s):
     """text -> list of code points"""
     return [ord(c) for c in s]
+
+
+# ---------------------------------------------------------------------------
+# real child processes through invoke.runners.Local, with bounded waits
+# ---------------------------------------------------------------------------
+def fd_count():
+    try:
+        return len(os.listdir("/proc/self/fd"))
+    except OSError:
+        return -1
+
+
+def proc_state(pid):
+    """'Z' zombie, 'R'/'S'/... alive, None = no such process"""
+    try:
+        with open("/proc/%d/stat" % pid) as f:
+            s = f.read()
+        return s[s.rindex(")") + 2]
+    except (OSError, ValueError):
+        return None
+
+
+def zombie_children():
+    me = os.getpid()
+    out = []
+    for d in os.listdir("/proc"):
+        if d.isdigit():
+            try:
+                with open("/proc/%s/stat" % d) as f:
+                    s = f.read()
+                rest = s[s.rindex(")") + 2:].split()
+                if rest[0] == "Z" and int(rest[1]) == me:
+                    out.append(int(d))
+            except (OSError, ValueError, IndexError):
+                pass
+    return out
+
+
+def run_real(command, bound=30.0, runner_cls=None, context=None, join_delay=0.0, **kwargs):
+    """runner.run(command, **kwargs) on a real Local runner in a helper thread;
+    gives up (and kills the child) after `bound` seconds.  command: str or argv list."""
+    import shlex
+    from invoke import Context
+    from invoke.runners import Local
+    from invoke.exceptions import Failure, ThreadException
+    if not isinstance(command, str):
+        command = " ".join(shlex.quote(x) for x in command)
+    runner = (runner_cls or Local)(context or Context())
+    box = {}
+
+    def call():
+        try:
+            r = runner.run(command, **kwargs)
+            if kwargs.get("asynchronous") and r is not None:
+                if join_delay:
+                    time.sleep(join_delay)
+                r = r.join()
+            box["result"] = r
+        except BaseException as e:  # noqa
+            box["exc"] = e
+
+    t = threading.Thread(target=call, daemon=True)
+    t0 = time.time()
+    t.start()
+    t.join(bound)
+    elapsed = time.time() - t0
+    hung = t.is_alive()
+    pid = None
+    try:
+        pid = runner.pid if getattr(runner, "using_pty", False) else runner.process.pid
+    except AttributeError:
+        pass
+    if hung and pid:
+        try:
+            os.kill(pid, 9)
+        except OSError:
+            pass
+        t.join(5)
+    obs = {"hang": hung, "hang_what": "run() still blocked after %.0fs" % bound if hung else None,
+           "elapsed": elapsed, "pid": pid, "runner": runner}
+    res = None
+    if "exc" in box:
+        e = box["exc"]
+        obs["outcome"] = type(e).__name__
+        obs["exc"] = e
+        if isinstance(e, Failure):
+            res = e.result
+        if isinstance(e, ThreadException):
+            obs["thread_excs"] = sorted(type(w.value).__name__ for w in e.exceptions)
+    elif hung:
+        obs["outcome"] = "HANG"
+    else:
+        res = box.get("result")
+        obs["outcome"] = "Result" if res is not None else "None"
+    obs["stdout"] = res.stdout if res is not None else None
+    obs["stderr"] = res.stderr if res is not None else None
+    obs["exited"] = res.exited if res is not None else None
+    workers = dict((tg.__name__, th) for tg, th in (getattr(runner, "threads", None) or {}).items())
+    obs["alive_after"] = sorted(n for n, th in workers.items() if th.is_alive())
+    tm = getattr(runner, "_timer", None)
+    if tm is not None:
+        tm.join(2)           # a cancelled Timer thread needs a moment to leave
+    obs["timer_alive"] = bool(tm is not None and tm.is_alive())
+    obs["child_state"] = proc_state(pid) if pid else None
+    return obs
